@@ -2189,6 +2189,11 @@ impl ProtocolState {
     }
 
     fn get_maximum_incoming_packet_size(&self) -> u32 {
+        // a 3.1.1 CONNECT cannot announce a maximum packet size, so none is in force for the server
+        if self.protocol_version == ProtocolVersion::Mqtt311 {
+            return MAXIMUM_PACKET_SIZE;
+        }
+
         if let Some(maximum_packet_size) = &self.config.connect_options.maximum_packet_size_bytes {
             return *maximum_packet_size;
         }
